@@ -192,3 +192,20 @@ func OnIsoCurve(x, y *big.Int) bool {
 	rhs := AddM(AddM(MulM(MulM(x, x, P), x, P), MulM(IsoA, x, P), P), IsoB, P)
 	return MulM(y, y, P).Cmp(rhs) == 0
 }
+
+// SWUFirstCandidateIsSquare reports whether g(x1) is a square for u (which
+// branch of the simplified SWU map is taken).
+func SWUFirstCandidateIsSquare(u *big.Int) bool {
+	A, B, Z := IsoA, IsoB, SwuZ
+	u = Mod(u, P)
+	zu2 := MulM(Z, MulM(u, u, P), P)
+	tv1 := Inv0(AddM(MulM(zu2, zu2, P), zu2, P), P)
+	var x1 *big.Int
+	if tv1.Sign() == 0 {
+		x1 = MulM(B, Inv0(MulM(Z, A, P), P), P)
+	} else {
+		x1 = MulM(MulM(NegM(B, P), Inv0(A, P), P), AddM(one, tv1, P), P)
+	}
+	gx1 := AddM(AddM(MulM(MulM(x1, x1, P), x1, P), MulM(A, x1, P), P), B, P)
+	return IsSquareP(gx1)
+}
